@@ -46,7 +46,7 @@ def base_kwargs(case):
     return kw, triples
 
 
-LINE_CHANNELS = ["raw", "raw", "file", "tsv", "turtle_iter"]     # readers that keep the document order
+LINE_CHANNELS = ["raw", "raw", "file", "tsv", "turtle_iter", "files", "zip"]     # readers that keep the document order
 
 
 def deliver(kw, doc, chan, tmpdir):
@@ -62,6 +62,28 @@ def deliver(kw, doc, chan, tmpdir):
         with open(path, "w", encoding="utf-8") as f:
             f.write(to_nt(doc))
         kw["graph_file_input"] = path
+    elif chan in ("files", "zip"):
+        # the document is cut into three consecutive parts; the file / member names are NOT in alphabetical order, the
+        # document order is the listed order
+        import zipfile
+        k = max(1, (len(doc) + 2) // 3)
+        parts = [doc[i:i + k] for i in range(0, len(doc), k)] or [[]]
+        names = ["part_m.nt", "part_a.nt", "part_z.nt", "part_c.nt"][:len(parts)]
+        if chan == "files":
+            paths = []
+            for nm, pt in zip(names, parts):
+                pth = os.path.join(tmpdir, nm)
+                with open(pth, "w", encoding="utf-8") as f:
+                    f.write(to_nt(pt))
+                paths.append(pth)
+            kw["graph_list_of_files_input"] = paths
+        else:
+            pth = os.path.join(tmpdir, "doc.zip")
+            with zipfile.ZipFile(pth, "w") as z:
+                for nm, pt in zip(names, parts):
+                    z.writestr(nm, to_nt(pt))
+            kw["graph_file_input"] = pth
+            kw["compression_mode"] = "zip"
     elif chan == "tsv":
         kw["raw_graph"] = to_tsv(doc)
         kw["input_format"] = "tsv_spo"
@@ -72,6 +94,29 @@ def deliver(kw, doc, chan, tmpdir):
         kw["rdflib_graph"] = to_rdflib(doc)
     else:
         raise ValueError(chan)
+    return kw
+
+
+def deliver_split(kw, triples, inst_prop, bare, tmpdir):
+    """class membership from a separate file (instances_file_input = the typing statements); the graph file holds the other
+    statements, minus those whose subject is one of the `bare` node indices (such instances have no triple of their own, so
+    their shapes come out empty and every reference to them must be cleaned)"""
+    import os
+    kw = dict(kw)
+    kw.pop("raw_graph", None)
+    subjects = []
+    for s, p, o in triples:
+        if p == inst_prop and s[1] not in subjects:
+            subjects.append(s[1])
+    drop = {subjects[i % len(subjects)] for i in bare} if subjects else set()
+    pi = os.path.join(tmpdir, "instances.nt")
+    with open(pi, "w", encoding="utf-8") as f:
+        f.write(to_nt([t for t in triples if t[1] == inst_prop]))
+    pg = os.path.join(tmpdir, "graph.nt")
+    with open(pg, "w", encoding="utf-8") as f:
+        f.write(to_nt([t for t in triples if t[1] != inst_prop and t[0][1] not in drop]))
+    kw["graph_file_input"] = pg
+    kw["instances_file_input"] = pi
     return kw
 
 
